@@ -15,7 +15,7 @@ def gen_case(rng, cfg):
     g = Gen(rng, catch_all_p=cfg.get("catch_all_p", 0.12), raise_p=cfg.get("raise_p", 0.06),
             none_p=cfg.get("none_p", 0.04), fail_cell_p=cfg.get("fail_cell_p", 0.0),
             handled_seq_p=cfg.get("handled_seq_p", 0.0), lam_p=cfg.get("lam_p", 0.0),
-            space_p=cfg.get("space_p", 0.0))
+            space_p=cfg.get("space_p", 0.0), block_p=cfg.get("block_p", 0.0))
     if cfg.get("no_try_p") and rng.random() < cfg["no_try_p"]:
         g.no_try = True
     ncells = rng.randint(cfg.get("min_cells", 2), cfg.get("max_cells", 6))
@@ -84,6 +84,12 @@ def gen_case(rng, cfg):
             ops.append(["setformula", str(c["id"]), sexp(g.body(c["id"], c["nparams"], [x["nparams"] for x in cells]))])
         elif k == "setcached":
             ops.append(["setcached", str(c["id"]), str(rng.randrange(2))])
+        elif k == "admin":
+            # administrative calls, in bursts (a stack-trace session is two of them)
+            for _ in range(rng.choice([1, 1, 2, 3])):
+                ops.append(["admin", rng.choice(execworld.ADMIN + ["start", "stop", "tracestack"])])
+        elif k == "maxdepth":
+            ops.append(["maxdepth", str(rng.choice(cfg.get("limits", [3, 4, 5, 6, 8, 10, 14, 100000])))])
     return {"cells": cells, "refs": refs, "n_rn": g.n_rn, "maxdepth": maxdepth, "ops": ops}
 
 
@@ -220,6 +226,35 @@ def shrink_ops(case, still_fails):
                 break
             n = min(len(ops), n * 2)
     return dict(case, ops=ops)
+
+
+def input_then_redefined_cases(finals):
+    """Scenario family "an input does not outlive the redefinition of its cells" (shared by C02, C06, C08; each gives
+    the last step it speaks about): element 0[] holds an INPUT and has a dependent 1[]; cells 0 is redefined - a new
+    formula (reading a reference BY NAME and calling cells 2), or the cache flag switched off and on again -, which
+    discards the input with everything else of the cells; 0[] and 1[] are evaluated again: 0[] now holds a computed
+    value; then `finals[label]` (a list of operations: a reference edit, a value edit, ...) and both are evaluated
+    again.  The reference lives in space 0 or in space 1 (cells 0 lives where the reference lives, 1 and 2 in the other:
+    a change of the namespace of cells 0 reaches 0[] through nothing but the cells itself)."""
+    cases = []
+    for R in (0, 2):
+        rsp = 0 if R < 2 else 1
+        for hit in ("setformula", "flag-off-on"):
+            for label, last in finals.items():
+                cells = [
+                    {"id": 0, "nparams": 0, "cached": True, "allow_none": False, "space": rsp,
+                     "body": ("add", ("add", ("rn", R), ("call", 2, [])), ("lit", 10))},
+                    {"id": 1, "nparams": 0, "cached": True, "allow_none": False, "space": 1 - rsp,
+                     "body": ("add", ("call", 0, []), ("lit", 1))},
+                    {"id": 2, "nparams": 0, "cached": True, "allow_none": False, "space": 1 - rsp, "body": ("lit", 5)},
+                ]
+                ev = [["eval", "0"], ["eval", "1"]]
+                h = {"setformula": [["setformula", "0", "(add (add (rn %d) (call 2)) (lit 30))" % R]],
+                     "flag-off-on": [["setcached", "0", "0"], ["setcached", "0", "1"]]}[hit]
+                cases.append({"cells": cells, "refs": {0: 1, 1: 2, 2: 3, 3: 4}, "n_rn": 2, "maxdepth": None,
+                              "ops": [["set", "0", "=", "7"], ["eval", "1"]] + h + ev + [list(o) for o in last(R)] + ev,
+                              "label": "input-then-redefined/%s/%s/ref%d" % (hit, label, R)})
+    return cases
 
 
 def run_family(ctx, out, cfg, oracle, n_quick, n_thorough, corpus_name=None, structured=None):
